@@ -521,6 +521,14 @@ class Run:
                         rep.problem(family, f"concat({i}, donor) is not the tree with the sub-term at {i} replaced",
                                     dict(case0, index=i, donor=dj), "concat", True, [self.sy_id(x) for x in r._nodes], None,
                                     "C09_concat_flatten")
+                    else:
+                        # the accessors of the NEW tree describe the new tree (t.get_max_level() / len(t) were called before)
+                        exp_depth = rec_info([int(x) for x in exp_ar])[3]
+                        got = (int(r.get_max_level()), len(r), int(r.copy().get_max_level()))
+                        if got != (exp_depth, len(exp_nodes), exp_depth):
+                            rep.problem(family, f"get_max_level / len of concat({i}, donor) (and of its copy) describe another tree",
+                                        dict(case0, index=i, donor=dj), "concat:max_level", True, list(got), [exp_depth, len(exp_nodes), exp_depth],
+                                        "C09_max_level")
                     f_cat.add(f"({pt}, {N(i)}, {self.cptree(d)}, {self.cptree(r)})", dict(case0, index=i, donor=dj))
             cp = t.copy()
             if not (cp == t and cp is not t and cp._nodes is not t._nodes and cp._n_args is not t._n_args
